@@ -26,16 +26,37 @@ INVS = ["KeptQueueClean", "ChoiceOK"]
 WHAT = "accumulation queue deviates from Gray Paper 12.4-12.12 / 12.31-12.33"
 
 
-class Scoped:
-    """ctx view with its own scratch prefix so that several validate_trace calls can run at once."""
+class Collect:
+    """ctx view for one validate_trace call: own scratch prefix, violations collected instead of filed."""
     def __init__(self, ctx, prefix):
         self._c, self._p = ctx, prefix
+        self.found = []          # (what, lines)
 
     def sub(self, name):
         return self._c.sub(self._p + "-" + name)
 
+    def violation(self, what, lines):
+        self.found.append((what, list(lines)))
+        return ""
+
     def __getattr__(self, k):
         return getattr(self._c, k)
+
+
+def judge(ctx, tag, module, shards, **kw):
+    """validate_trace + confirmation: a rejected trace prefix is judged a second time on its own before it is
+    filed as a violation; if the second judgement accepts it, the first TLC process died (kill, OOM) -> Infra."""
+    c1 = Collect(ctx, tag)
+    vf.validate_trace(c1, module, shards, **kw)
+    for what, lines in c1.found:
+        c2 = Collect(ctx, tag + "-confirm%d" % (abs(hash(what)) % 100000))
+        kw2 = dict(kw)
+        kw2["par"] = 1
+        vf.validate_trace(c2, module, [lines], **kw2)
+        if not c2.found:
+            raise vf.Infra("trace validation of %s was interrupted (a rejected prefix is accepted when judged again): %s" % (tag, what[:200]))
+        ctx.violation(what, lines)
+    return len(c1.found)
 
 
 # ---------------------------------------------------------------- MC configurations
@@ -45,7 +66,8 @@ def mc_cfgs(ctx):
     q = ctx.quick
     out = []
     # all graphs on <=2 (quick) / <=3 (thorough) reports, deps any subset of {h1,h2,h3,acc,unknown}, 14 seeded states
-    out.append(("graphs", dict(base, MaxAvail="2" if q else "3", Gaps="{1,2}" if q else "{1}", InitKind='"seeded1"' if q else '"seeded2"'), False, 2 if q else 6))
+    out.append(("graphs", dict(base, MaxAvail="2" if q else "3", Gaps="{1,2}" if q else "{1}", XS="{ha}" if q else "{ha,hu}",
+                               InitKind='"seeded0"'), False, 2 if q else 6))
     if not q:
         out.append(("graphs2", dict(base, MaxAvail="2", Gaps="{1,2}", InitKind='"seeded"'), False, 2))
     if q:
@@ -72,7 +94,7 @@ def mc_one(ctx, label, consts, sym, workers):
     cfg = vf.cfg_text(constants=consts, invariants=["TypeOK", "InvQueueClean"], properties=["BlockChoice"], raw=raw,
                       symmetry="Sym" if sym else None)
     cover = (not ctx.quick) and label == "hist2"          # vacuity guard on one small configuration
-    res = vf.mc(ctx, "MC_AccQueue", cfg, workers=workers, timeout=3300, heap="6g", label="MC_AccQueue/" + label,
+    res = vf.mc(ctx, "MC_AccQueue", cfg, workers=workers, timeout=5400, heap="6g", label="MC_AccQueue/" + label,
                 coverage=cover)
     if cover:
         import re
@@ -203,8 +225,7 @@ def run(ctx):
         lines = vf.read_lines(tp)
         stats(lines, seen, counts)
         ctx.cov["evaluations"] = counts["blocks"] + counts["fn"]
-        vf.validate_trace(ctx, "AccQueue_Trace", [lines], stateful=True, invariants=INVS,
-                          what=WHAT)
+        judge(ctx, "replay", "AccQueue_Trace", [lines], stateful=True, invariants=INVS, what=WHAT)
         return
 
     # job list: (family, lo, hi, stride)
@@ -231,7 +252,7 @@ def run(ctx):
         add("h2", 11, 1)
 
     rng = vf.Rng(ctx.seed)
-    rnd_cases = [rnd_history(rng) for _ in range(1000 if q else 25000)] + [rnd_queue(rng) for _ in range(2000 if q else 60000)]
+    rnd_cases = [rnd_history(rng) for _ in range(600 if q else 25000)] + [rnd_queue(rng) for _ in range(1500 if q else 60000)]
     rndp = ctx.tmp + "/cases-rnd.ndjson"
     with open(rndp, "w") as f:
         for c in rnd_cases:
@@ -258,8 +279,8 @@ def run(ctx):
             samples.append([json.loads(x) for x in lines[:2]])
         if q:
             return lines             # quick: all traces are judged together in a few large shards (JVM warm-up dominates)
-        vf.validate_trace(Scoped(ctx, tag), "AccQueue_Trace", shard_lines(lines, target), stateful=True, invariants=INVS, par=1,
-                          heap="5g", timeout=3000, what=WHAT)
+        judge(ctx, tag, "AccQueue_Trace", shard_lines(lines, target), stateful=True, invariants=INVS, par=1,
+              heap="5g", timeout=3000, what=WHAT)
         return []
 
     with cf.ThreadPoolExecutor(P + 6) as ex:
@@ -271,8 +292,8 @@ def run(ctx):
             for f in pf:
                 merged += f.result()
         if merged:
-            vf.validate_trace(ctx, "AccQueue_Trace", shard_lines(merged, max(20000, len(merged) // 3 + 1)), stateful=True,
-                              invariants=INVS, par=3, heap="3g", timeout=600, what=WHAT)
+            judge(ctx, "all", "AccQueue_Trace", shard_lines(merged, max(15000, len(merged) // 2 + 1)), stateful=True,
+                  invariants=INVS, par=3, heap="3g", timeout=900, what=WHAT)
         for f in mcf:
             f.result()
 
